@@ -510,8 +510,10 @@ func (sf IntLatLngSnapper) MinEdgeVertexSeparation() s1.Angle {
 
 // SnapPoint returns a candidate snap site for the given point.
 func (sf IntLatLngSnapper) SnapPoint(point Point) Point {
+	// The grid is in units of 10^-exponent degrees. The scaled coordinates reach
+	// 1.8e12 for exponent 10, so they are rounded as float64 rather than int32.
 	input := LatLngFromPoint(point)
-	lat := s1.Angle(roundAngle(input.Lat * sf.from))
-	lng := s1.Angle(roundAngle(input.Lng * sf.from))
-	return PointFromLatLng(LatLng{lat * sf.to, lng * sf.to})
+	lat := math.RoundToEven(input.Lat.Degrees() * float64(sf.from))
+	lng := math.RoundToEven(input.Lng.Degrees() * float64(sf.from))
+	return PointFromLatLng(LatLngFromDegrees(lat*float64(sf.to), lng*float64(sf.to)))
 }
